@@ -4,7 +4,7 @@ import ast
 from ..core.model import AnchorError
 from ..core.cfg import walk_shallow, cfg_of
 from ..core.facts import U, atoms_of
-from ..engine import argn, fn_name, kwarg, local_defs, returns_of, stmts_in, vars_assigned_from, var_from_call
+from ..engine import argn, fn_name, kwarg, local_defs, returns_of, stmts_in, vars_assigned_from, var_from_call, flows_into
 from ..kinds import parity
 from . import c13
 
@@ -141,6 +141,25 @@ def s3(ctx, rep):
     icn = [n.id for n in cfg.nodes if n.kind == "stmt" and isinstance(n.ast, ast.Assign) and U(n.ast.targets[0]) == icv]
     ok = bool(wr) and bool(icn) and cfg.path(cfg.entry, icn[0], deleted=set(wr)) is None
     rep.put(ok, "S3", "must_precede", "SynchronousBracket.on_result: slot written ≺ completeness test", f, None, "")
+    # a complete rung is left behind: the rung index advances by exactly one and the hand-out position starts at 0 again, on every
+    # path on which the rung was found complete and before the next rung is built
+    adv = {n.id for n in cfg.nodes if n.kind == "stmt" and isinstance(n.ast, ast.AugAssign) and isinstance(n.ast.op, ast.Add)
+           and U(n.ast.target) == "self.current_rung" and U(n.ast.value) == "1"}
+    rst = {n.id for n in cfg.nodes if n.kind == "stmt" and isinstance(n.ast, ast.Assign) and U(n.ast.targets[0]) == "self._first_free_pos"
+           and U(n.ast.value) == "0"}
+    starts = [s_ for n in cfg.nodes for s_, l in cfg.succ[n.id] if isinstance(l, tuple) and l[0] == "cond" and
+              any(a[0] == "truth" and a[1] == icv and a[2] is True for a in atoms_of(l[1], l[2]))]
+    for what, nodes_, why in (("the rung index advances by one", adv, "the bracket stays on the completed rung: its next result is refused, or the rung is promoted again"),
+                              ("the hand-out position is reset to 0", rst, "no slot of the next rung is ever handed out (or the rung counts as complete at once)")):
+        ok = bool(nodes_) and bool(starts) and cfg.path(starts, cfg.exit, deleted=nodes_, skip_labels=("exc",)) is None and \
+            all(cfg.path(starts, n_, deleted=nodes_, skip_labels=("exc",)) is None for n_ in pr) and \
+            all(ctx.has_fact(f, n_, lambda a: a[0] == "truth" and a[1] == icv and a[2] is True) for n_ in nodes_)
+        rep.put(ok, "S3", "must_follow", f"SynchronousBracket.on_result: when the rung is complete, {what} (before the next rung is built)", f, None, "", why)
+    others = [(m_, x) for c_ in ctx.family("SynchronousBracket") for m_ in c_.methods.values() if m_.name not in ("__init__", "on_result")
+              for x in walk_shallow(m_.node) if isinstance(x, (ast.Assign, ast.AugAssign))
+              and any(U(t) == "self.current_rung" for t in (x.targets if isinstance(x, ast.Assign) else [x.target]))]
+    rep.put(not others, "S3", "who_may_write", "SynchronousBracket.current_rung is advanced by on_result only", f, others[0][1] if others else None, "",
+            f"{others[0][0].short if others else ''} moves the bracket to another rung outside the completion of the current one")
     g = P.method("SynchronousBracket", "num_pending_slots")
     ok = any(isinstance(x, ast.Call) and fn_name(x) == "sum" and "is None" in U(x) and "_first_free_pos" in U(x) for x in walk_shallow(g.node))
     rep.put(ok, "S3", "agreement", "SynchronousBracket.num_pending_slots counts handed-out positions without a metric", g, None, "")
@@ -254,6 +273,134 @@ def s6(ctx, rep):
                      "sibling difference to SynchronousHyperbandScheduler (no clause depends on it given C02)")
     # on_trial_error parts are shared with C13-S3
     c13.s3(ctx, _Filter(rep, "S6", only=("SynchronousHyperbandScheduler", "DifferentialEvolutionHyperbandScheduler")))
+
+
+def s6c(ctx, rep):
+    """SynchronousHyperbandScheduler._suggest: the job handed out by the bracket is the job the trial must answer.
+    A slot that names a trial is a promotion (that trial is resumed with its own configuration), a slot that names none is
+    a new trial (which is then written into the slot); every suggestion returned is registered as pending under its id."""
+    from .common import require_guard, call_nodes, dom_guard
+    P = ctx.P
+    f = P.method("SynchronousHyperbandScheduler", "_suggest")
+    cfg = cfg_of(f)
+    # the slot variable: second element unpacked from next_job()
+    slot = None
+    for x in walk_shallow(f.node):
+        if isinstance(x, ast.Assign) and isinstance(x.targets[0], ast.Tuple) and len(x.targets[0].elts) == 2 and isinstance(x.value, ast.Call) \
+                and fn_name(x.value) == "next_job":
+            slot = U(x.targets[0].elts[1])
+    if slot is None:
+        raise AnchorError("SynchronousHyperbandScheduler._suggest: `bracket_id, slot = bracket_manager.next_job()` not found")
+    res = [n for n, c in call_nodes(ctx, f, lambda c: fn_name(c) == "resume_suggestion")]
+    sta = [n for n, c in call_nodes(ctx, f, lambda c: fn_name(c) == "start_suggestion")]
+    from ..engine import deref
+
+    def names_slot_id(txt):
+        try:
+            return U(deref(f, ast.parse(txt, mode="eval").body)) == f"{slot}.trial_id"
+        except SyntaxError:
+            return False
+    require_guard(ctx, rep, "S6", f, "SynchronousHyperbandScheduler._suggest: a trial is resumed | the slot names a trial", res,
+                  [(f"{slot}.trial_id is not None", lambda a: a[0] == "is" and names_slot_id(a[1]) and a[2] == "None" and a[3] is False)],
+                  "a slot of a higher rung (which names the promoted trial) starts a new trial, or a free slot of the first rung resumes trial `None`")
+    require_guard(ctx, rep, "S6", f, "SynchronousHyperbandScheduler._suggest: a new trial is started | the slot names no trial", sta,
+                  [(f"{slot}.trial_id is None", lambda a: a[0] == "is" and names_slot_id(a[1]) and a[2] == "None" and a[3] is True)],
+                  "a promotion slot is answered by a new trial: the promoted trial never runs at the next level and the rung holds a stranger")
+    # the resumed trial is the one the slot names, with the configuration recorded for it
+    rc = [c for n, c in call_nodes(ctx, f, lambda c: fn_name(c) == "resume_suggestion")]
+    from ..engine import deref
+    tid = deref(f, kwarg(rc[0], "trial_id", 0)) if rc and kwarg(rc[0], "trial_id", 0) is not None else None
+    okr = tid is not None and U(tid) == f"{slot}.trial_id"
+    cfgv = kwarg(rc[0], "config", 1) if rc else None
+    okc = cfgv is not None and flows_into(f, cfgv, lambda y: isinstance(y, ast.Subscript) and U(y.value) == "self._trial_to_config"
+                                          and U(deref(f, y.slice)) == f"{slot}.trial_id")
+    rep.put(okr and bool(okc), "S6", "agreement", "SynchronousHyperbandScheduler._suggest: the trial resumed is the slot's trial with its recorded configuration", f,
+            rc[0] if rc else None, "", "another trial (or another configuration) than the one the bracket promoted is resumed")
+    # every suggestion that is returned has been registered as pending (and a new trial has been written into its slot)
+    pend = {n.id for n in cfg.nodes if n.kind == "stmt" and isinstance(n.ast, ast.Assign) and any(
+        isinstance(t, ast.Subscript) and U(t.value) == "self._trial_to_pending_slot" for t in n.ast.targets)
+        and isinstance(n.ast.value, ast.Tuple) and U(n.ast.value.elts[-1]) == slot}
+    sugv = {U(n.ast.targets[0]) for n in cfg.nodes if n.kind == "stmt" and isinstance(n.ast, ast.Assign) and n.id in res + sta}
+
+    def live(lab):      # the suggestion variable holds a call result on these paths: its `is None` edges are not taken
+        return not (isinstance(lab, tuple) and lab[0] == "cond" and any(a[0] == "is" and a[1] in sugv and a[2] == "None" and a[3] is True
+                                                                        for a in atoms_of(lab[1], lab[2])))
+
+    def through(n, marks):
+        return cfg.path([cfg.entry], n, deleted=marks, skip_labels=("exc",)) is None or \
+            cfg.path([n], cfg.exit, deleted=marks, skip_labels=("exc",), edge_ok=live) is None
+    okp = bool(pend) and len(sugv) == 1 and all(through(n, pend) for n in res + sta)
+    rep.put(okp, "S6", "must_follow", "SynchronousHyperbandScheduler._suggest: every suggestion is registered in _trial_to_pending_slot with its slot", f, None, "",
+            "a trial runs without a pending entry: its result at the rung level is ignored ('not pending'), the slot stays empty and the rung never completes")
+    wr = {n.id for n in cfg.nodes if n.kind == "stmt" and isinstance(n.ast, ast.Assign) and any(U(t) == f"{slot}.trial_id" for t in n.ast.targets)}
+    okw = bool(wr) and all(through(n, wr) for n in sta)
+    rep.put(okw, "S6", "must_follow", "SynchronousHyperbandScheduler._suggest: a new trial's id is written into its slot", f, None, "",
+            "the slot of a new trial keeps trial id None: its result is stored without an id and the trial can never be promoted")
+    rec = {n.id for n in cfg.nodes if n.kind == "stmt" and isinstance(n.ast, ast.Assign) and any(
+        isinstance(t, ast.Subscript) and U(t.value) == "self._trial_to_config" for t in n.ast.targets)}
+    okcfg = bool(rec) and all(through(n, rec) for n in sta)
+    rep.put(okcfg, "S6", "must_follow", "SynchronousHyperbandScheduler._suggest: a new trial's configuration is recorded", f, None, "",
+            "the configuration of a new trial is not recorded: its promotion fails with KeyError")
+
+
+def s6d(ctx, rep):
+    """DEHB keeps the same books as synchronous Hyperband, spread over helper methods: a job that is handed out is registered
+    as pending with its slot, the trial's record carries the level it runs to and no metric until it reports, and the slot
+    goes back to the bracket with the winner's id and the winner's metric."""
+    from ..engine import deref
+    P = ctx.P
+    c = P.cls("DifferentialEvolutionHyperbandScheduler")
+
+    def every_path(m, pred, what, why):
+        cm = cfg_of(m)
+        marks = {n.id for n in cm.nodes if n.kind == "stmt" and isinstance(n.ast, (ast.Assign, ast.AugAssign)) and pred(m, n.ast)}
+        ok = bool(marks) and cm.path([cm.entry], cm.exit, deleted=marks, skip_labels=("exc",)) is None
+        rep.put(ok, "S6", "must_follow", f"DifferentialEvolutionHyperbandScheduler.{m.name}: {what}", m, None, "", why)
+
+    def pend(m, st):
+        return isinstance(st, ast.Assign) and any(isinstance(t, ast.Subscript) and U(t.value) == "self._trial_to_pending_slot" and U(t.slice) == m.params[1]
+                                                   for t in st.targets) and U(st.value) == m.params[2]
+
+    def field(name, value_pred):
+        def pred(m, st):
+            return isinstance(st, ast.Assign) and any(isinstance(t, ast.Attribute) and t.attr == name and "_trial_info" in U(deref(m, t.value))
+                                                       for t in st.targets) and value_pred(m, st.value)
+        return pred
+    reg, pro = c.methods["_register_new_config_and_make_suggestion"], c.methods["_promote_trial_and_make_suggestion"]
+    for m in (reg, pro):
+        every_path(m, pend, "the job is registered as pending under the trial's id with its slot",
+                   "the trial runs without a pending entry: its result at the rung level is discarded and the slot stays empty")
+    every_path(reg, lambda m, st: isinstance(st, ast.Assign) and any(isinstance(t, ast.Subscript) and U(t.value) == "self._trial_info" and U(t.slice) == m.params[1]
+                                                                     for t in st.targets) and isinstance(st.value, ast.Call)
+               and kwarg(st.value, "level") is not None and U(kwarg(st.value, "level")) == f"{m.params[2]}.level"
+               and kwarg(st.value, "encoded_config") is not None and U(kwarg(st.value, "encoded_config")) == m.params[3],
+               "the new trial is recorded with its encoded configuration and the level of its slot",
+               "the trial's record names another level or configuration: the sanity check at its report fails, or a different configuration is promoted")
+    every_path(pro, field("level", lambda m, v: U(v) == f"{m.params[2]}.level"), "the promoted trial's record moves to the level of its new slot",
+               "the record keeps the old level: the report at the new rung level is rejected")
+    every_path(pro, field("metric_val", lambda m, v: isinstance(v, ast.Constant) and v.value is None), "the promoted trial's record has no metric until it reports again",
+               "the metric of the previous rung stays in the record and is taken for the new rung's result")
+    rec = c.methods["_record_new_metric_value"]
+    every_path(rec, field("metric_val", lambda m, v: U(v) == m.params[3]), "the reported metric is written to the trial's record",
+               "selection and promotion read a missing (or stale) metric")
+    ret = c.methods["_return_slot_result_to_bracket"]
+    cr = cfg_of(ret)
+    w, sl = ret.params[1], ret.params[2]
+    back = {n.id for n in cr.nodes if any(isinstance(x, ast.Call) and fn_name(x) == "on_result" for x in cr.node_walk(n.id))}
+    for attr_, want, what in (("trial_id", lambda v: U(v) == w, "the winner's id"),
+                              ("metric_val", lambda v: isinstance(v, ast.Attribute) and v.attr == "metric_val" and "_trial_info" in U(v) and f"[{w}]" in U(v), "the winner's metric")):
+        marks = {n.id for n in cr.nodes if n.kind == "stmt" and isinstance(n.ast, ast.Assign) and any(U(t) == f"{sl}.{attr_}" for t in n.ast.targets) and want(n.ast.value)}
+        ok = bool(marks) and bool(back) and all(cr.path([cr.entry], b, deleted=marks, skip_labels=("exc",)) is None for b in back)
+        rep.put(ok, "S6", "must_precede", f"DifferentialEvolutionHyperbandScheduler._return_slot_result_to_bracket: the slot carries {what} when it is returned", ret, None, "",
+                "the bracket records another trial or metric than the winner of the selection: the wrong trials are ranked and promoted")
+    # _suggest: a trial is resumed only if pause/resume is supported and the configuration came from a promotion
+    from .common import require_guard, call_nodes
+    sg = c.methods["_suggest"]
+    nodes = [n for n, x in call_nodes(ctx, sg, lambda x: fn_name(x) == "_promote_trial_and_make_suggestion")]
+    require_guard(ctx, rep, "S6", sg, "DifferentialEvolutionHyperbandScheduler._suggest: a trial is resumed | pause/resume is supported and a trial was promoted", nodes,
+                  [("self._support_pause_resume", lambda a: a[0] == "truth" and a[1] == "self._support_pause_resume" and a[2] is True),
+                   ("promoted_from_trial_id is not None", lambda a: a[0] == "is" and a[2] == "None" and a[3] is False)],
+                  "a new configuration is run by resuming trial `None`, or a promotion resumes although the backend was told trials are never resumed")
 
 
 class _Filter:
@@ -413,6 +560,8 @@ def run(ctx, rep, tier="quick"):
     s3(ctx, rep)
     s4_s5(ctx, rep)
     s6(ctx, rep)
+    s6c(ctx, rep)
+    s6d(ctx, rep)
     s7(ctx, rep)
     c13.s6(ctx, rep, clause="S8")
     s9(ctx, rep)
